@@ -98,9 +98,9 @@ func (r *Run) Step() bool {
 // StepNo is the index of the current step.
 func (r *Run) StepNo() int { return r.steps - 1 }
 
-func (r *Run) Draw(n int) int         { return r.Tape.Draw(n) }
+func (r *Run) Draw(n int) int           { return r.Tape.Draw(n) }
 func (r *Run) Chance(num, den int) bool { return r.Tape.Chance(num, den) }
-func (r *Run) Kind(k string)          { r.Tape.SetKind(k) }
+func (r *Run) Kind(k string)            { r.Tape.SetKind(k) }
 
 // Fail reports a property violation and aborts the run.
 func (r *Run) Fail(code, format string, args ...interface{}) {
@@ -201,8 +201,8 @@ type Outcome struct {
 func Execute(fn func(*Run), tape *Tape, seed uint64, tier string) (out Outcome) {
 	r := &Run{
 		Tape: tape, Seed: seed, Tier: tier,
-		Stats:  map[string]int64{},
-		states: map[string]struct{}{},
+		Stats:     map[string]int64{},
+		states:    map[string]struct{}{},
 		KnownHits: map[string]int{},
 	}
 	// Pin process-global randomness. GODEBUG=randseednop=0 must be set for
